@@ -188,7 +188,7 @@ def run(rep, tier):
                 nb += 1
                 if nb <= 3:
                     rep.tie_broken('Lean find_peaks model and implementation disagree', {'op': ln[:300], 'model': o, 'impl': e})
-    starfinders(rep, drv, r, 10 * scale)
+    starfinders(rep, drv, r, 16 * scale)
     centroid_refine(rep, r, 10 * scale)
     exclude_border_probe(rep, r, 8 * scale)
 
@@ -215,8 +215,8 @@ def starfinders(rep, drv, r, n):
     lines, exps = [], []
     for k in range(n):
         img, pos = star_scene(r)
-        br = r.choice([None, None, 2, 3])
-        pk = r.choice([None, None, 60.0])
+        br = r.choice([None, 2, 3, 2])
+        pk = r.choice([None, 60.0, 60.0, 25.0])          # brightest and peakmax together: the order of the two selections matters
         msep = r.choice([0.0, 0.0, 3.0])
         xyc = None
         if r.random() < 0.25:
@@ -227,6 +227,10 @@ def starfinders(rep, drv, r, n):
             ('IRAFStarFinder', IRAFStarFinder(threshold=2.0, fwhm=2.8, brightest=br, peakmax=pk, xycoords=xyc,
                                               minsep_fwhm=1.5 if msep else 2.5)),
         ]
+        if xyc is None:
+            gy_, gx_ = np.mgrid[-3:4, -3:4]
+            sk = np.exp(-(gx_ ** 2 + gy_ ** 2) / (2 * 1.2 ** 2))
+            finders.append(('StarFinder', StarFinder(threshold=3.0, kernel=sk, brightest=br, peakmax=pk, min_separation=msep or 5.0)))
         for name, f in finders:
             with warnings.catch_warnings():
                 warnings.simplefilter('ignore')
@@ -250,6 +254,12 @@ def starfinders(rep, drv, r, n):
                         fin &= np.isfinite(np.asarray(getattr(raw, a), float))
                     inb = ((raw.sharpness >= f.sharplo) & (raw.sharpness <= f.sharphi) & (raw.roundness1 >= f.roundlo)
                            & (raw.roundness1 <= f.roundhi) & (raw.roundness2 >= f.roundlo) & (raw.roundness2 <= f.roundhi))
+                elif name == 'StarFinder':
+                    attrs = ('xcentroid', 'ycentroid', 'fwhm', 'roundness', 'pa', 'max_value', 'flux')
+                    fin = np.ones(len(raw), bool)
+                    for a in attrs:
+                        fin &= np.isfinite(np.asarray(getattr(raw, a), float))
+                    inb = np.ones(len(raw), bool)
                 else:
                     attrs = ('xcentroid', 'ycentroid', 'fwhm', 'sharpness', 'roundness', 'pa', 'peak', 'flux')
                     fin = np.ones(len(raw), bool)
@@ -258,7 +268,7 @@ def starfinders(rep, drv, r, n):
                     inb = ((raw.sharpness >= f.sharplo) & (raw.sharpness <= f.sharphi) & (raw.roundness >= f.roundlo)
                            & (raw.roundness <= f.roundhi))
                 if pk is not None:
-                    inb = inb & (np.asarray(raw.peak, float) <= pk)
+                    inb = inb & (np.asarray(raw.max_value if name == 'StarFinder' else raw.peak, float) <= pk)
                 flux = np.asarray(raw.flux, float)
             inb = np.asarray(inb) & fin    # bounds on non-finite values are false anyway
             rows = ' '.join(f'{int(a)},{int(b)},{q(fl) if np.isfinite(fl) else 0}' for a, b, fl in zip(fin, inb, flux)) or '-'
@@ -277,9 +287,13 @@ def starfinders(rep, drv, r, n):
                 ok = list(tbl['id']) == list(range(1, len(tbl) + 1))
                 for col in tbl.colnames:
                     ok = ok and bool(np.all(np.isfinite(np.asarray(tbl[col], float))))
-                ok = ok and bool(np.all((tbl['sharpness'] >= f.sharplo) & (tbl['sharpness'] <= f.sharphi)))
+                if name != 'StarFinder':
+                    ok = ok and bool(np.all((tbl['sharpness'] >= f.sharplo) & (tbl['sharpness'] <= f.sharphi)))
                 if pk is not None:
-                    ok = ok and bool(np.all(tbl['peak'] <= pk))
+                    ok = ok and bool(np.all(tbl['max_value' if name == 'StarFinder' else 'peak'] <= pk))
+                # exactly the sources that pass the filters, or the `brightest` of THEM
+                n_pass = int(np.count_nonzero(inb))
+                ok = ok and len(tbl) == (n_pass if br is None else min(br, n_pass))
                 if br is not None:
                     ok = ok and len(tbl) <= br
                     allf = np.sort(flux[inb])[::-1]
@@ -287,8 +301,9 @@ def starfinders(rep, drv, r, n):
                 if xyc is not None:
                     ok = ok and len(tbl) <= len(xyc)
                 if not ok:
-                    rep.violation(f'starfinder-contract:{name}', f'{name}: returned table violates its selection contract',
-                                  {'finder': name, 'brightest': br, 'peakmax': pk})
+                    rep.violation(f'starfinder-contract:{name}', f'{name}: returned table violates its selection contract '
+                                  f'({len(tbl)} rows; {int(np.count_nonzero(inb))} raw detections pass the filters, brightest={br}, peakmax={pk})',
+                                  {'finder': name, 'brightest': br, 'peakmax': pk, 'data': img.tolist()})
     out = drv.run(lines)
     if out is None:
         rep.tie_broken('model driver failed (stars)', drv.error)
